@@ -203,6 +203,7 @@ def run(ctx):
         _mutable_defaults(ctx)
         _directed(ctx, pk)
         _faithful_histories(ctx, pk)
+        _component_graphs(ctx, pk)
     finally:
         pk.close()
     return core.finish(ctx, obligations, discharged, names, RULE,
@@ -617,3 +618,203 @@ def _faithful_histories(ctx, pk):
                 if mstop is not None and mstop[2] != "none":
                     ctx.count("faithful:model:component-broke-off")
         ctx.sample({"faithful_history": hists[0][0], "schema_level_imports": list(sd.imports)}, cap=16)
+def _component_graphs(ctx, pk):
+    """histories over component packages that import EACH OTHER.  A world is one schema (an abstract type with a '*' slot;
+    sometimes the schema imports one of the packages itself) and 2..4 generated packages whose component.xml files carry
+    <import package=...> elements - chains, diamonds, now and then a back edge (mutual imports) - because their section types
+    extend, or have sections of, types of the packages they import; sometimes one more package that imports a good one,
+    registers an implementer and then fails.  A history is 2..5 (thorough: ..8) loads against ONE schema object through the
+    module-level entry point (the statement is about the schema object, not about a loader), each load with 0..3 '%import'
+    lines - the same packages as an earlier load in another order, fewer, more, outer before inner and inner before outer,
+    repeated - and sections of the packages' types, of packages the text reaches only THROUGH another package's <import>, and
+    of packages it does not import at all; some loads fail (unknown key, unclosed section, %import after its use).  Every
+    load is repeated on a freshly loaded copy of the schema and the outcomes (value, or error class) compared; the schema's
+    description is compared with its initial value after every load (growth of the implementer tables alone is the listed
+    finding, reported by the main stream)."""
+    import io
+    import ZConfig
+    rng = ctx.rng
+    nworlds = 200 if ctx.thorough() else 40
+    maxloads = 8 if ctx.thorough() else 5
+
+    def outcome(schema, text):
+        try:
+            cfg, _ = ZConfig.loadConfigFile(schema, io.StringIO(text), cfgstream.URL)
+            return ["ok", cfgrun.describe(cfg)], cfg
+        except ZConfig.ConfigurationError as e:
+            return ["cfg", type(e).__name__], None
+        except Exception as e:
+            return ["exc", type(e).__name__], None
+
+    for w in range(nworlds):
+        n = rng.randint(2, 4)
+        shape = rng.choice(["chain", "dag", "dag", "cyclic"])
+        names = [pk.fresh_name("zcvg") for _ in range(n)]
+        imports = {}
+        types = {}          # type name -> {"pkg": i, "item": implements the abstract type, "sub": None | type name | "item"}
+        pkgxml = {}
+        for i in range(n):
+            imports[i] = [i - 1] if (shape == "chain" and i) else [j for j in range(i) if rng.random() < 0.6]
+            if shape == "cyclic" and i < n - 1 and rng.random() < 0.5:
+                imports[i].append(rng.randint(i + 1, n - 1))
+            rng.shuffle(imports[i])
+            # the types this package may refer to: those of the lower-numbered packages it imports (read before its own types)
+            avail = [t for t, d in types.items() if d["pkg"] in imports[i]]
+            body = ["  <import package='%s'/>\n" % names[j] for j in imports[i]]
+            for s in "ab"[: rng.randint(1, 2)]:
+                t = "t%d%s" % (i, s)
+                d = {"pkg": i, "item": rng.random() < 0.8, "sub": None}
+                attrs, inner = "", "    <key name='k%s' default='d%s'/>\n" % (t, t)
+                if avail and rng.random() < 0.35:
+                    base = rng.choice(avail)
+                    attrs += " extends='%s'" % base
+                    d["sub"] = types[base]["sub"]
+                elif avail and rng.random() < 0.5:
+                    d["sub"] = rng.choice(avail)
+                    inner += "    <section type='%s' name='*' attribute='sub'/>\n" % d["sub"]
+                elif rng.random() < 0.2:
+                    d["sub"] = "item"
+                    inner += "    <multisection type='item' name='*' attribute='sub'/>\n"
+                if d["item"]:
+                    attrs += " implements='item'"
+                body.append("  <sectiontype name='%s'%s>\n%s  </sectiontype>\n" % (t, attrs, inner))
+                types[t] = d
+            pkgxml[names[i]] = "<component>\n%s</component>\n" % "".join(body)
+        broken = None
+        if rng.random() < 0.5:
+            # imports a good package, registers one more implementer, then fails (an abstract type nobody declared)
+            broken = pk.fresh_name("zcvgbad")
+            pkgxml[broken] = ("<component>\n  <import package='%s'/>\n  <sectiontype name='tbad' implements='item'/>\n"
+                              "  <sectiontype name='tworse' implements='nosuchabstract'/>\n</component>\n" % rng.choice(names))
+        for p, x in pkgxml.items():
+            os.makedirs(os.path.join(pk.root, p))
+            open(os.path.join(pk.root, p, "__init__.py"), "w").write("# generated\n")
+            open(os.path.join(pk.root, p, "component.xml"), "w").write(x)
+            pk.names.append(p)
+        simp = rng.choice(range(n)) if rng.random() < 0.3 else None        # the schema imports this package itself
+        xml = ("<schema>\n  <abstracttype name='item'/>\n%s  <multisection type='item' name='*' attribute='items'/>\n"
+               "  <key name='plain' default='p'/>\n</schema>\n" % ("  <import package='%s'/>\n" % names[simp] if simp is not None else ""))
+
+        def reach(start):
+            seen, todo = set(), list(start)
+            while todo:
+                i = todo.pop()
+                if i not in seen:
+                    seen.add(i)
+                    todo.extend(imports[i])
+            return seen
+
+        def section(t, depth=0):
+            ind = " " * depth
+            hdr = t + (" n%d" % rng.randint(0, 9) if rng.random() < 0.4 else "")
+            out = []
+            if rng.random() < 0.5:
+                out.append("%s k%s v%d" % (ind, t, rng.randint(0, 9)))
+            sub = types[t]["sub"] if t in types else None
+            if sub and depth < 2 and rng.random() < 0.6:
+                cands = [x for x, d in types.items() if d["item"]] if sub == "item" else [sub]
+                if cands:
+                    out.extend(section(rng.choice(cands), depth + 1))
+            if not out and rng.random() < 0.5:
+                return ["%s<%s/>" % (ind, hdr)]
+            return ["%s<%s>" % (ind, hdr)] + out + ["%s</%s>" % (ind, t)]
+
+        try:
+            fresh0 = ZConfig.loadSchemaFile(io.StringIO(xml))
+        except ZConfig.ConfigurationError:
+            ctx.count("graphs:schema-refused")      # (a schema-level import that meets a back edge the wrong way round)
+            continue
+        for h in range(4):
+            reused = ZConfig.loadSchemaFile(io.StringIO(xml))
+            d0 = sdigest(reused)
+            texts, seq, past = [], [], []
+            nimporting = 0
+            for step in range(rng.randint(2, maxloads)):
+                if past and rng.random() < 0.55:
+                    # the packages of an earlier load again: other order, one fewer, one more
+                    imps = list(rng.choice(past))
+                    r = rng.random()
+                    if r < 0.35:
+                        imps.reverse()
+                    elif r < 0.55 and imps:
+                        imps.pop(rng.randrange(len(imps)))
+                    elif r < 0.9:
+                        imps.insert(rng.randint(0, len(imps)), rng.randrange(n))
+                else:
+                    imps = [rng.randrange(n) for _ in range(rng.choice([0, 1, 1, 2, 2, 3]))]
+                past.append(list(imps))
+                got = reach(imps + ([simp] if simp is not None else []))
+                lines = ["%%import %s" % names[i] for i in imps]
+                if broken and rng.random() < 0.08:
+                    lines.insert(rng.randint(0, len(lines)), "%import " + broken)
+                inreach = [t for t, d in types.items() if d["pkg"] in got and d["item"]]
+                body = []
+                for _ in range(rng.randint(0, 3)):
+                    t = rng.choice(inreach) if inreach and rng.random() < 0.85 else rng.choice(sorted(types))
+                    if types[t]["pkg"] not in imps and types[t]["pkg"] in got:
+                        ctx.count("graphs:section-of-a-package-reached-only-through-another-import")
+                    elif types[t]["pkg"] not in got:
+                        ctx.count("graphs:section-of-a-package-not-imported")
+                    body.extend(section(t))
+                if rng.random() < 0.3:
+                    body.insert(rng.choice([0, len(body)]), "plain v%d" % rng.randint(0, 9))
+                r = rng.random()
+                if r < 0.06:
+                    body.append("nosuchkey v")
+                elif r < 0.10:
+                    body.append("<%s>" % rng.choice(sorted(types)))
+                elif r < 0.16 and lines:
+                    body.append(lines.pop())        # a %import line after the sections
+                text = "\n".join(lines + body) + "\n"
+                texts.append(text)
+                a, cfg = outcome(reused, text)
+                b, _ = outcome(ZConfig.loadSchemaFile(io.StringIO(xml)), text)
+                ctx.evaluations += 1
+                ctx.count("graphs:load:" + (a[0] if a[0] == "ok" else ":".join(a)))
+                ctx.count("graphs:imports-in-text:%d" % len(imps))
+                if any(imports[i] for i in imps):
+                    ctx.count("graphs:load-importing-a-package-that-imports")
+                    if a[0] == "ok":
+                        nimporting += 1
+                seq.append({"text": text, "reused": a, "fresh": b})
+                rep = {"schema_xml": xml, "packages": pkgxml, "texts": list(texts), "step": len(texts), "reused": a, "fresh": b,
+                       "package_imports": {names[i]: [names[j] for j in imports[i]] for i in range(n)}}
+                if a != b:
+                    # shrink the history: drop earlier loads as long as the last text still tells the used schema from a fresh one
+                    keep = list(texts)
+                    i = 0
+                    while i < len(keep) - 1:
+                        cand = keep[:i] + keep[i + 1:]
+                        sch = ZConfig.loadSchemaFile(io.StringIO(xml))
+                        for t in cand[:-1]:
+                            outcome(sch, t)
+                        if outcome(sch, cand[-1])[0] != b:
+                            keep = cand
+                        else:
+                            i += 1
+                    rep["texts_minimised"] = keep
+                    ctx.violate("component graph (%s), load %d: the reused schema gives %r, a fresh copy %r" % (shape, len(texts), a, b),
+                                rep, signature="C13:component-graph:outcome")
+                    break
+                if cfg is not None and rng.random() < 0.5:
+                    ctx.count("mutated-containers", mutate(cfg))
+                d1 = sdigest(reused)
+                if d1 != d0:
+                    if not d1.startswith("undigestible") and _only_subtypes_differ(F.digest(reused), F.digest(fresh0)):
+                        ctx.count("graphs:implementer-tables-grew (listed finding)")
+                        d0 = d1
+                    else:
+                        ctx.violate("component graph (%s): the schema's own description changed after load %d" % (shape, len(texts)),
+                                    rep, signature="C13:component-graph:digest")
+                        break
+            if nimporting >= 2:
+                ctx.nontriv(("component-graph", w, h))
+            ctx.count("graphs:histories")
+            ctx.count("graphs:shape:" + shape)
+
+
+RULE += ("; component graphs: per world of 2..4 generated packages whose components <import> each other (chain / dag / back "
+         "edges; types extending or containing types of the imported packages; optionally a failing component, optionally "
+         "imported by the schema itself) four histories of 2..5 loads with 0..3 %import lines each (orders, subsets and supersets of "
+         "earlier loads' packages) on one schema object vs fresh copies, outcome and digest; non-trivial = history with >= 2 accepted "
+         "loads that %import a package which itself imports")
